@@ -136,6 +136,49 @@ func VerifC09_DumpLoadScalar() {
 	rt.Reach("scalar-end")
 }
 
+// a large, highly compressible value (8 KiB of one byte) survives compression:
+// nothing on the way limits how far data may grow when it is decompressed
+type verifGenBig struct {
+	X uint8
+}
+
+const verifGenBigSize = 8192
+
+func (g *verifGenBig) GenCodeMarshal(buf []byte) ([]byte, error) {
+	out := make([]byte, verifGenBigSize)
+	for i := range out {
+		out[i] = g.X
+	}
+	return out, nil
+}
+
+func (g *verifGenBig) GenCodeUnmarshal(buf []byte) (uint64, error) {
+	if len(buf) < verifGenBigSize {
+		return 0, errors.New("short")
+	}
+	g.X = buf[verifGenBigSize-1]
+	return verifGenBigSize, nil
+}
+
+func VerifC09_CompressLargeValue() {
+	rt.SetUnwind(3 * verifGenBigSize)
+	g := &verifGenBig{X: rt.U8("X")}
+	data, err := DumpAndCompress(g, GenCode, GZIP)
+	rt.Assert(err == nil, "compresslarge/dump-ok")
+	if err != nil {
+		return
+	}
+	back := &verifGenBig{}
+	got, err := Load(data, back)
+	rt.Assert(err == nil, "compresslarge/load-ok")
+	if err != nil {
+		return
+	}
+	rt.Assert(got == GenCode, "compresslarge/format-reported")
+	rt.Assert(back.X == g.X, "compresslarge/value")
+	rt.Reach("compresslarge-end")
+}
+
 // ---- O1b: DumpAndCompress -> Load for all 256 x 256 ids ----
 
 func VerifC09_DumpCompressLoad() {
